@@ -15,7 +15,6 @@
   trajectory decreases, result below / above the reference value).
 -/
 import Proofs.Coupling
-import Proofs.QcdBridge
 
 namespace Gep.R.C15
 open Gep.R Gep.R.Coupling
@@ -359,62 +358,5 @@ theorem classical_tableau_order4 :
     lean/Audit/C15_wrong.lean) violate the third-order condition Σ b c² = 1/3 -/
 theorem equal_weights_not_order3 :
     ((1/4 : ℚ) * (1/2)^2 + (1/4) * (1/2)^2 + (1/4) * 1^2 ≠ 1/3) := by norm_num
-
-
-/-! ### the model is what the current source says (second tie, besides the run-time correspondence)
-
-`Gen/QcdSrcR.lean` is written by `tools/gen_qcd.py` from the Python AST of src/gepard/qcd.py and constants.py on every
-run; the statements below say that each formula found there equals the model's, so everything proved above about
-`beta`, `fbeta1`, `rk4Step`, `as2pf` is proved about the formulas of the current source. -/
-
-/-- the four orders of `beta` as written in qcd.py, with the colour factors as written in constants.py -/
-theorem source_beta (nf : ℝ) :
-    QcdSrc.beta_0 nf = beta0 nf ∧ QcdSrc.beta_1 nf = beta1 nf ∧ QcdSrc.beta_2 nf = beta2 nf ∧
-    QcdSrc.beta_3 nf = beta3 nf :=
-  ⟨QcdBridge.beta_0_eq nf, QcdBridge.beta_1_eq nf, QcdBridge.beta_2_eq nf, QcdBridge.beta_3_eq nf⟩
-
-/-- the orders for which qcd.beta has a branch are exactly those for which the model returns a value -/
-theorem source_beta_orders (p : Int) (nf : ℝ) : p ∈ QcdSrc.betaOrders ↔ beta p nf ≠ none := by
-  simp only [QcdSrc.betaOrders, List.mem_cons, List.not_mem_nil, or_false, beta]
-  constructor
-  · rintro (h | h | h | h) <;> subst h <;> simp
-  · intro h
-    by_cases h0 : p = 0; · exact Or.inl h0
-    by_cases h1 : p = 1; · exact Or.inr (Or.inl h1)
-    by_cases h2 : p = 2; · exact Or.inr (Or.inr (Or.inl h2))
-    by_cases h3 : p = 3; · exact Or.inr (Or.inr (Or.inr h3))
-    simp [h0, h1, h2, h3] at h
-
-/-- `_fbeta1` and the body of the Runge–Kutta loop as written in qcd.py -/
-theorem source_rhs_and_step (nf dlr a : ℝ) :
-    QcdSrc.fbeta1 a nf = fbeta1 a nf ∧ QcdSrc.rkStep nf dlr a = rk4Step nf dlr a :=
-  ⟨QcdBridge.fbeta1_eq a nf, QcdBridge.rkStep_eq nf dlr a⟩
-
-/-- the loop of qcd.py runs over `range(1, NASTPS+1)`: `NASTPS` = 20 passes -/
-theorem source_loop_range :
-    QcdSrc.loopLo = 1 ∧ QcdSrc.loopHi - QcdSrc.loopLo = NASTPS ∧ QcdSrc.NASTPS = NASTPS := by decide
-
-/-- **LO**: wherever the model returns a value, it is the value of the source's straight-line code
-    (`a = 0.5*as0; lrrat = log(r2/r20); a = 0.5*as0/(1 - 0.5*beta(0,nf)*as0*lrrat); a = 2*a`) -/
-theorem source_as2pf_lo (nf r2 as0 r20 : ℝ) (hr : r20 ≠ 0) (hq : 0 < r2 / r20)
-    (hd : loDen nf as0 (Real.log (r2 / r20)) ≠ 0) :
-    as2pf 0 nf r2 as0 r20 = .ok (QcdSrc.as2pf_lo nf r2 as0 r20) := by
-  rw [as2pf_lo nf r2 as0 r20 hr hq, if_neg hd]
-  congr 1
-  simp only [QcdSrc.as2pf_lo, QcdBridge.finalA_eq, QcdBridge.loA_eq, klog]
-  field_simp
-  ring
-
-/-- **NLO**: the model's value is the source's loop: `NASTPS` passes of the source's loop body with the source's
-    step `dlr = log(r2/r20)/NASTPS`, started at `0.5*as0`, doubled at the end -/
-theorem source_as2pf_nlo (nf r2 as0 r20 : ℝ) (hr : r20 ≠ 0) (hq : 0 < r2 / r20) :
-    as2pf 1 nf r2 as0 r20 = .ok (QcdSrc.as2pf_nlo nf r2 as0 r20) := by
-  have hrange : List.range' QcdSrc.loopLo (QcdSrc.loopHi - QcdSrc.loopLo) = List.range' 1 NASTPS := by decide
-  rw [as2pf_nlo nf r2 as0 r20 hr hq]
-  simp only [QcdSrc.as2pf_nlo, hrange, QcdBridge.finalA_eq, QcdBridge.loop_eq, QcdSrc.pre_dlr, QcdSrc.pre_a, klog]
-
-/-- non-vacuity: at nf = 4, as0 = 0.05, r2 = 2 r20 the LO hypotheses hold -/
-example : (1 : ℝ) ≠ 0 ∧ 0 < (2 : ℝ) / 1 := by norm_num
-
 
 end Gep.R.C15
